@@ -214,14 +214,18 @@ def case_agc(ctx, nc, ns):
         ctx.oblige("agc_gain_non_negative", all_([gain[c, t] >= 0 for t in range(ns)]))
 
 
-def case_destripe(ctx, nc, ns, k_filter):
+def case_destripe(ctx, nc, ns, k_filter, header="np1"):
     import ibldsp.voltage as v
     import neuropixel
     rows, x = _data(ctx, nc, ns, -100, 100)
     labels = [ctx.int(f"label{c}", 0, 3) for c in range(nc)]
     lab = arrays.mk(list(labels), tag=np.dtype(float))
-    h0 = neuropixel.trace_header(version=1)
+    h0 = neuropixel.trace_header(version=2 if header == "np2" else 1)
     h = {k: np.asarray(vv[:nc], dtype=float) for k, vv in h0.items()}
+    if header == "np2":       # the header of another probe generation, the last sites of its ADC groups (the shifts differ from the NP1 table)
+        h = {k: np.asarray(vv[-nc:], dtype=float) for k, vv in h0.items()}
+    if header == "custom":    # a header assembled by hand: its own shifts are the ones to undo
+        h["sample_shift"] = np.array([0.1, 0.7, 0.3, 0.9, 0.5][:nc])
     calls = []
 
     def spatial(name):
@@ -235,7 +239,10 @@ def case_destripe(ctx, nc, ns, k_filter):
     v.interpolate_bad_channels = interp_stub
     del TRACE[:]
     xin = arrays.mk([e for r in rows for e in r], shape=(nc, ns), tag=np.dtype(float))
-    out = ctx.call("destripe", v.destripe, xin, 30000, h=h, neuropixel_version=1, channel_labels=lab, k_filter=k_filter)
+    if header == "np1":
+        out = ctx.call("destripe", v.destripe, xin, 30000, h=h, neuropixel_version=1, channel_labels=lab, k_filter=k_filter)
+    else:
+        out = ctx.call("destripe", v.destripe, xin, 30000, h=h, channel_labels=lab, k_filter=k_filter)
     lv = [int(ctx.concretize(core._it(e))) if isinstance(e, core.Sym) else int(e) for e in labels]
     inside = [c for c in range(nc) if lv[c] != 3]
     outside = [c for c in range(nc) if lv[c] == 3]
@@ -288,6 +295,8 @@ def cases(tier):
     cs.append(Case("agc", "case_agc", {"nc": 2, "ns": 2}, timeout_s=1500))
     for kf in (True, False):
         cs.append(Case(f"destripe_{'kfilt' if kf else 'car'}", "case_destripe", {"nc": b["nc"], "ns": 2, "k_filter": kf}, timeout_s=1500))
+    cs.append(Case("destripe_car_np2_header", "case_destripe", {"nc": b["nc"], "ns": 2, "k_filter": False, "header": "np2"}, timeout_s=1500))
+    cs.append(Case("destripe_kfilt_custom_header", "case_destripe", {"nc": b["nc"], "ns": 2, "k_filter": True, "header": "custom"}, timeout_s=1500))
     return cs
 
 
@@ -386,22 +395,29 @@ def spy(name, real):
 order = []
 real_fshift = v.fourier.fshift; real_interp = v.interpolate_bad_channels; real_sos = v.scipy.signal.sosfiltfilt
 v.kfilt = spy('kfilt', lambda d, **kw: d * 0 + 7.0); v.car = spy('car', lambda d, **kw: d * 0 + 7.0)
+shifts_seen = []
 def tracer(name, real):
     def f(*a, **kw):
-        order.append(name); return real(*a, **kw)
+        order.append(name)
+        if name == 'fshift': shifts_seen.append(np.array(a[1], copy=True))
+        return real(*a, **kw)
     return f
 v.fourier.fshift = tracer('fshift', real_fshift); v.interpolate_bad_channels = tracer('interpolate', real_interp); v.scipy.signal.sosfiltfilt = tracer('sosfiltfilt', real_sos)
 nc = 96; labels = np.zeros(nc); lab = {lab}
 for i, l in enumerate(lab): labels[10 * i + 3] = l
-h = neuropixel.trace_header(version=1); h = {{k: vv[:nc] for k, vv in h.items()}}
+header = {params.get('header', 'np1')!r}
+h = neuropixel.trace_header(version=2 if header == 'np2' else 1); h = {{k: (vv[-nc:] if header == 'np2' else vv[:nc]) for k, vv in h.items()}}
+if header == 'custom': h['sample_shift'] = np.tile([0.1, 0.7, 0.3, 0.9, 0.5, 0.2], nc // 6)
 rs = np.random.default_rng(0); x = rs.normal(size=(nc, 600))
-out = v.destripe(x.copy(), 30000, h=h, neuropixel_version=1, channel_labels=labels, k_filter={params['k_filter']})
+if header == 'np1': out = v.destripe(x.copy(), 30000, h=h, neuropixel_version=1, channel_labels=labels, k_filter={params['k_filter']})
+else: out = v.destripe(x.copy(), 30000, h=h, channel_labels=labels, k_filter={params['k_filter']})
 inside = np.where(labels != 3)[0]; outside = np.where(labels == 3)[0]
 bad = []
 if len(calls) != 1 or calls[0][1].shape[0] != inside.size: bad.append(('spatial filter saw', [c[1].shape for c in calls], 'expected rows', inside.size))
 if not np.all(out[inside] == 7.0): bad.append('inside rows are not the filter output')
 if outside.size and np.any(out[outside] == 7.0): bad.append('outside-brain rows overwritten by the filter')
 want = ['sosfiltfilt', 'fshift'] + (['interpolate'] if 'interpolate' in order else [])
+if len(shifts_seen) != 1 or shifts_seen[0].shape != np.shape(h['sample_shift']) or not np.array_equal(shifts_seen[0], h['sample_shift']): bad.append("the ADC re-alignment does not use the header's sample_shift")
 if order[:len(want)] != want: bad.append(('order of the steps', order, 'expected: high-pass, ADC re-alignment, then interpolation of the bad channels'))
 print(bad)
 if bad: reproduced(str(bad))
